@@ -4,7 +4,7 @@ From GV Require Import Base.Util Base.NMap Circuit.Ssa Circuit.Reg Circuit.RegAl
   Builder.Builder Builder.Build Gadgets.Gadgets
   Lang.Types Lang.Literal Exhaust.Pat Exhaust.Covers Exhaust.Useful Lang.Ast Lang.Sem Lang.Wt.
 From GV Require Import Gadgets.Extend Sort.SortJob.
-From GV Require Import Front.Scan Front.Prettify Front.ParseExpr Compile.Consts Panic.PanicRec Compile.Lower Compile.TSem Compile.Fragment Compile.FreeLower Compile.TSemSafe Compile.TSemTotal Compile.TSemSemFull Compile.TSemSemFullWt Compile.SemFuel Compile.JoinProgram Compile.EndToEnd Exhaust.ExhSem Compile.Final Check.UAst Check.Infer Check.InferSound Check.InferSafe Check.LitParse.
+From GV Require Import Front.Scan Front.Prettify Front.ParseExpr Compile.Consts Panic.PanicRec Compile.Lower Compile.TSem Compile.Fragment Compile.FreeLower Compile.TSemSafe Compile.TSemTotal Compile.TSemSemFull Compile.TSemSemFullWt Compile.SemFuel Compile.JoinProgram Compile.EndToEnd Exhaust.ExhSem Compile.Final Check.UAst Check.Infer Check.InferSound Check.InferSafe Check.InferFuel4 Check.InferFuel5 Check.LitParse.
 Extraction Language OCaml.
 Set Extraction AccessOpaque.
 Separate Extraction
@@ -29,4 +29,4 @@ Separate Extraction
   Consts.repaired Consts.original Consts.check_defs Consts.compile_consts Consts.const_spec Consts.bits_unsigned Consts.bits_signed Consts.wt_defs Consts.sup_ok
   PanicRec.pstate_new PanicRec.push_panic_if PanicRec.mux_panic PanicRec.prec_wires PanicRec.nset_keys PanicRec.parse_panic PanicRec.preason_num PanicRec.preason_from_num
   Extend.extend_to_bits SortJob.run_sops
-  Lower.lower_program TSem.tsem_program Fragment.in_proved_fragment Fragment.covered_program TSemSemFullWt.wt_covered SemFuel.sem_fuel_enough JoinProgram.join_covered EndToEnd.certified EndToEnd.within_gate_bound ExhSem.exh_fns Final.certified_exh TSemSemFull.canonical_main_args TSemSafe.safe_program_ok TSemTotal.fuel_enough TSemTotal.params_ok FreeLower.klower_main Useful.check_exhaustive Useful.fuel_bound ParseExpr.parse_expr ParseExpr.parse_expr_st ParseExpr.parse_block_text ParseExpr.parse_program_text ParseExpr.parse_literal_text UAst.uprogram_of_parsed Infer.check_program InferSound.in_sound_fragment InferSafe.structs_sorted InferSafe.sp_program InferSafe.main_declared InferSafe.tys_program LitParse.literal_parse_program ParseExpr.fuel_for_tokens.
+  Lower.lower_program TSem.tsem_program Fragment.in_proved_fragment Fragment.covered_program TSemSemFullWt.wt_covered SemFuel.sem_fuel_enough JoinProgram.join_covered EndToEnd.certified EndToEnd.within_gate_bound ExhSem.exh_fns Final.certified_exh TSemSemFull.canonical_main_args TSemSafe.safe_program_ok TSemTotal.fuel_enough TSemTotal.params_ok FreeLower.klower_main Useful.check_exhaustive Useful.fuel_bound ParseExpr.parse_expr ParseExpr.parse_expr_st ParseExpr.parse_block_text ParseExpr.parse_program_text ParseExpr.parse_literal_text UAst.uprogram_of_parsed Infer.check_program InferSound.in_sound_fragment InferSafe.structs_sorted InferSafe.sp_program InferSafe.main_declared InferSafe.tys_program InferFuel4.no_oracle InferFuel5.ty_depth_bound LitParse.literal_parse_program ParseExpr.fuel_for_tokens.
